@@ -372,9 +372,9 @@ Proof.
   unfold fixed_RnsToRing, fixed_tree. rewrite map_length. rewrite H, build_tree_nodes.
   destruct (odd_levels_nodes prs (length prs) Hf _ 0%nat eq_refl) as [O1 O2].
   cbn [skipn] in O1, O2. cbv zeta. rewrite O1, O2. fold E.
-  destruct (dom_RnsToRing_spec (dom_setPrimes dom_default (map nP E)) (map nL E)) as (_ & _ & R).
-  - left. reflexivity.
-  - exact R.
+  destruct (dom_mk_wf (map nP E)) as [W P].
+  change (dom_setPrimes dom_default (map nP E)) with (dom_mk (map nP E)).
+  destruct (dom_RnsToRing_spec (dom_mk (map nP E)) (map nL E) W) as (_ & _ & R). rewrite R, P. reflexivity.
 Qed.
 
 Definition Fixed_tree_stmt : Prop :=
